@@ -320,7 +320,7 @@ func nbtnsLocks(repo string) (string, any, error) {
 		return "", nil, fmt.Errorf("no function touching NetBIOSNameServer.names found in %s", dir)
 	}
 	if queryCopies < 0 {
-		return "", nil, fmt.Errorf("method QueryName of NetBIOSNameServer not found")
+		return "", nil, fmt.Errorf("method QueryName of NetBIOSNameServer not found among the functions that reach `.names` (directly, or through a helper that only runs under its callers' lock)")
 	}
 	sort.Slice(methods, func(i, j int) bool { return methods[i].Name < methods[j].Name })
 	var b strings.Builder
